@@ -128,3 +128,22 @@ def getPosition (a b : Alt) : Option (Position α) :=
 
 end
 end Adsb
+
+/-! ## the operations `get_position`, `get_lat_lon` and `positive_mod` use, as a structure
+
+`Gen/CprFn.lean` (written by `tools/rust2lean.py` from `cpr.rs` on every run) is a term over this structure;
+`Theorems/C05d` proves that, in exact arithmetic, the translated term is the hand-written `getPosition` above. -/
+namespace Adsb
+structure CprOps (α : Type) where
+  lit : Nat → α              -- integral literals, `f64::from(u32)`, `u64 as f64`
+  half : α                   -- `0.5`
+  add : α → α → α
+  sub : α → α → α
+  mul : α → α → α
+  div : α → α → α
+  rem : α → α → α            -- `%` on `f64` (`fmod`: the remainder has the sign of the dividend)
+  floor : α → α
+  ltb : α → α → Bool
+  leb : α → α → Bool
+  nl : α → Nat               -- `cpr_nl`
+end Adsb
